@@ -13,7 +13,7 @@
    - A FunctionModel is the record `fmodel` of the three things the finder reads from it.
    - Exceptions: `sres` is `res` with the error type extended by the argument-check errors of the search
      module (`cons_err` of the hand model) and DontCareCastError. *)
-Require Import Cirbo.Model.Base Cirbo.Model.Gate Cirbo.Model.Search.
+Require Import Cirbo.Model.Base Cirbo.Model.Gate Cirbo.Model.Search Cirbo.Model.SearchCircuit.
 Local Open Scope nat_scope.
 
 Inductive serr : Type :=
@@ -130,3 +130,14 @@ Definition py_product2 {A} (l : list A) : list (A * A) :=
   flat_map (fun a => map (fun b => (a, b)) l) l.
 Definition py_product3 {A} (l : list A) : list (A * A * A) :=
   flat_map (fun a => flat_map (fun b => map (fun c => (a, b, c)) l) l) l.
+
+(* ---- the decoder (_get_circuit_by_model) ---- *)
+(* x in l for an Optional int: None is in no list of ints *)
+Definition opt_mem_nat (o : option nat) (l : list nat) : bool :=
+  match o with Some x => mem_nat x l | None => false end.
+(* str(x) for an Optional int *)
+Definition opt_nat_str (o : option nat) : string :=
+  match o with Some x => SearchCircuit.nat_str x | None => "None"%string end.
+(* _tt_to_gate_type[tuple(l)]: the keys are the sixteen 4-tuples (checked by translator T3)  (KeyError) *)
+Definition tt4_of_list (l : list bool) : sres tt4 :=
+  match l with [a; b; c; d] => SOk (a, b, c, d) | _ => SErr (SPy PyKeyError) end.
